@@ -26,6 +26,7 @@ import (
 	"strings"
 	"sync/atomic"
 	"time"
+	"verif/gen/xmlgen"
 
 	"github.com/sassoftware/relic/v8/config"
 
@@ -265,7 +266,7 @@ func boundsText(thorough bool) map[string]any {
 		"ps":    "texts: {CRLF,LF,CR-only} x {final newline, none}, one line, blank lines (+3 non-ASCII texts for BOM encodings, one whose UTF-16 code units contain a 0x0A byte) x encoding {ASCII, UTF-8 BOM, UTF-16LE BOM} x style {.ps1,.ps1xml,.mof} (90) x keys x digests{sha1,sha256,sha384,sha512}",
 		"cab":   "dummy.cab + generated single-folder uncompressed cabinets with file sizes {[1],[100],[40000],[1,100],[32768,1]} x keys x digests{sha1,sha256,sha384,sha512}",
 		"msi":   "dummy.msi + cfbgen families names, storage, nested-signame, layout, sizes(quick: <=2 streams; thorough: <=3 + dircount + fatfull). quick: all shapes x rsaA x sha256 x {extended, no-extended-sig}  U  dummy.msi x keys x digests x both. thorough: all shapes x {rsaA,p256A,p384} x {sha256,sha1,sha384,sha512} x both",
-		"xml":   "appmanifest fixture x keys x digests{sha1,sha256,sha384,sha512} (+RFC 3161 x {rsaA,p256A}); VSIX fixture x keys x digests(+sha224 thorough) x {detach-certs}",
+		"xml":   "appmanifest fixture x keys x digests{sha1,sha256,sha384,sha512} (+RFC 3161 x {rsaA,p256A}; + the fixture with every extension subtree binding / re-binding / using an unknown prefix at three levels, rsaA sha256); VSIX fixture x keys x digests(+sha224 thorough) x {detach-certs}",
 		"pgp":   "16 texts (final newline or not; five sizes around the packet-length encoding boundaries, trailing blanks, dash lines, CRLF, mixed endings, empty, newline only, trailing blank lines, UTF-8, 5000-char line) x all 16 subsets of {armor,inline,clearsign,textmode} x keys {rsaA (+rsaB thorough)} x digests {sha256,sha512 (+sha1,sha224,sha384 thorough)}; p256A on 2 cases (expected refusal). deb: fixture + 2 generated packages x role {builder,origin,maint,archive} x digests {sha256,sha512} (+ a second role added on top); rpm: rocky fixture x {rsaA,rsaB} x {sha1,sha256,sha512}",
 		"other": "cat (hyperv.cat), appx (App1), xap (dummy.xap) x keys x sha256 (+RFC 3161 on rsaA): CMS checks only",
 		"tier":  map[bool]string{false: "quick", true: "thorough"}[thorough],
@@ -581,6 +582,21 @@ func planXML(thorough bool, keys []string) {
 			plan("appmanifest", "fixture x keys x digests", func() { runManifestCase(c, man) })
 		}
 	}
+	// the fixture with an extension subtree that binds, re-binds and uses a prefix the
+	// manifest does not know (root / element / child). Variants in which an element
+	// repeats the binding already in scope are left to C19, which lists relic's
+	// handling of redundant declarations as a known finding.
+	xmlgen.Extensions(func(e xmlgen.Extension) {
+		if e.Redundant {
+			return
+		}
+		doc, err := e.Embed(man)
+		if err != nil {
+			panic(err)
+		}
+		c := sigCase{Fmt: "appmanifest", Shape: "fixture+extension " + e.Desc, Key: "rsaA", Hash: "sha256"}
+		plan("appmanifest", "extension subtrees", func() { runManifestCase(c, doc) })
+	})
 	for _, k := range []string{"rsaA", "p256A"} {
 		c := sigCase{Fmt: "appmanifest", Shape: "fixture", Key: k, Hash: "sha256", TS: true}
 		plan("appmanifest", "rfc3161", func() { runManifestCase(c, man) })
